@@ -350,7 +350,7 @@ Lemma frag_exec E cx s i : cwf cx -> rinv s -> in_fragment i = true -> ~ pre_exc
       (i = I_REVERT /\ o = O_revert /\ data = mslice (R_mem s i) (nthz (s_stack s) 0) (nthz (s_stack s) 1))) /\
      exec_plain E cx i (frag_s1 cx s i) = S_halt (mkRes o data (s_gas s - R_cost cx s i) (s_world s) (s_cc s))) \/
   (~ R_exceptional cx s i /\ i <> I_STOP /\ i <> I_RETURN /\ i <> I_REVERT /\
-   exists s2, exec_plain E cx i (frag_s1 cx s i) = S_next s2 /\ R_effect cx s i s2 /\ rinv s2).
+   exists s2, exec_plain E cx i (frag_s1 cx s i) = S_next s2 /\ R_effect E cx s i s2 /\ rinv s2).
 Proof.
   intros (Hclen & Hcb) (Hst & (ow & How & Hms & Hb) & Hg) Hfrag Hnpre Hwb Hw0.
   assert (Hgas : R_cost cx s i <= s_gas s). { unfold pre_exc in Hnpre. cbv zeta in Hnpre. lia. }
@@ -361,7 +361,31 @@ Proof.
             rinv (mkSt pc' st' mem' (Z.max (s_msize s) (32 * R_words s i)) (s_gas s - R_cost cx s i) (s_ret s) w' (s_cc s))).
   { intros. unfold rinv. cbn [s_stack s_msize s_gas]. split; [assumption|]. split; [|lia].
     exists (Z.max ow (R_words s i)). rewrite Hms. unfold BOUND in *. lia. }
-  destruct i; try discriminate.
+  destruct i; try discriminate;
+    try (match goal with |- context [exec_plain _ _ ?ins _] =>
+           lazymatch ins with
+           | I_ADDRESS => idtac
+           | I_ORIGIN => idtac
+           | I_CALLER => idtac
+           | I_CALLVALUE => idtac
+           | I_CALLDATASIZE => idtac
+           | I_CALLDATALOAD => idtac
+           | I_CODESIZE => idtac
+           | I_GASPRICE => idtac
+           | I_RETURNDATASIZE => idtac
+           | I_COINBASE => idtac
+           | I_TIMESTAMP => idtac
+           | I_NUMBER => idtac
+           | I_DIFFICULTY => idtac
+           | I_GASLIMIT => idtac
+           | I_CHAINID => idtac
+           | I_BASEFEE => idtac
+           | _ => fail
+           end end;
+         right; right; split; [apply Hnj; discriminate|]; repeat split; try discriminate;
+         eexists; split; [reflexivity|]; split;
+         [eff_start; unfold pushw; rewrite wrap_mod, ?Hclen; repeat split; reflexivity
+         |apply Hinv2; apply pushw_ok; first [apply Hd|apply Hst]]).
   - (* STOP *) right; left. split; [apply Hnj; discriminate|]. exists O_ok, []. split; [left; auto|reflexivity].
   - (* ALU *) right; right. split; [apply Hnj; discriminate|]. repeat split; try discriminate.
     eexists. split; [reflexivity|]. split.
@@ -461,7 +485,7 @@ Qed.
 (* ------------------------------------------------------------------ refinement *)
 Definition res_matches (r : fres) (rr : rres) : Prop :=
   match rr with
-  | RR_outside => True
+  | RR_outside _ _ => True
   | RR_fail => exists e, r_out r = O_err e
   | RR_done o d g w => r_out r = o /\ r_data r = d /\ r_gas r = g /\ r_world r = w
   end.
@@ -479,7 +503,7 @@ Definition leaves_fragment (E : env) (cx : ctx) : Prop :=
   exists b i, In b (0 :: c_code cx) /\ decode_at (e_fork E) b = Some i /\ in_fragment i = false.
 
 Theorem run_refines_reference fuel : forall E cx s, cwf cx -> rinv s -> r_out (run fuel E cx s) <> O_fuel ->
-  exists rr, ref_run E cx s rr /\ res_matches (run fuel E cx s) rr /\ (rr = RR_outside -> leaves_fragment E cx).
+  exists rr, ref_run E cx s rr /\ res_matches (run fuel E cx s) rr /\ (forall pc i, rr = RR_outside pc i -> leaves_fragment E cx).
 Proof.
   induction fuel as [|f IH]; intros E cx s Hc Hinv Hnf. { cbn in Hnf. congruence. }
   cbn [run] in *.
@@ -490,8 +514,8 @@ Proof.
       exists RR_fail. split; [apply RRun_stop, RS_invalid; exact Hdec|]. split; [|discriminate].
       unfold step. rewrite Hpre. cbn. eexists; reflexivity. }
   destruct (in_fragment i) eqn:Hfrag.
-  2:{ exists RR_outside. split; [apply RRun_stop; eapply RS_outside; eassumption|]. split; [exact I|].
-      intros _. exists (fetch cx s), i. split; [apply fetch_in|]. split; assumption. }
+  2:{ exists (RR_outside (s_pc s) i). split; [apply RRun_stop; eapply RS_outside; eassumption|]. split; [exact I|].
+      intros _ _ _. exists (fetch cx s), i. split; [apply fetch_in|]. split; assumption. }
   destruct (frag_pre E cx s i Hc Hinv Hdec Hfrag) as [(Hexc & e & Hpre)|(Hnexc & Hpre & Hwb & Hw0)].
   - exists RR_fail. split.
     + apply RRun_stop. eapply RS_exc; [eassumption|assumption|]. apply exc_split. left; exact Hexc.
@@ -512,3 +536,49 @@ Qed.
 (* the entry frame of a call starts in a state satisfying the invariant *)
 Lemma initial_rinv gas w cc : 0 <= gas -> rinv (mkSt 0 [] [] 0 gas [] w cc).
 Proof. intros. unfold rinv. cbn. split; [constructor|]. split; [exists 0; unfold BOUND; lia|lia]. Qed.
+
+(* ------------------------------------------------------------------ lift to the entry call *)
+(* what the caller of a frame observes for a reference result: success keeps the frame's world; REVERT keeps data and gas but
+   restores the entry world w; an exceptional halt yields no data, no gas and the entry world *)
+Definition call_matches (w : world) (r : fres) (rr : rres) : Prop :=
+  match rr with
+  | RR_outside _ _ => True
+  | RR_fail => (exists e, r_out r = O_err e) /\ r_data r = [] /\ r_gas r = 0 /\ r_world r = w
+  | RR_done O_ok d g w' => r_out r = O_ok /\ r_data r = d /\ r_gas r = g /\ r_world r = w'
+  | RR_done O_revert d g _ => r_out r = O_revert /\ r_data r = d /\ r_gas r = g /\ r_world r = w
+  | RR_done _ _ _ _ => True
+  end.
+
+Theorem call_top_refines_reference fuel E static to v input gas w :
+  let w1 := transfer w (e_origin E) to v in
+  let code := code_of w1 to in
+  let cx0 := mkCtx to (e_origin E) v code (zlen code) input static 1 in
+  let s0 := mkSt 0 [] [] 0 gas [] w1 0 in
+  (negb (v =? 0) && (balance w (e_origin E) <? v)) = false ->        (* the origin can pay the value *)
+  precompile E to = false ->
+  (negb (exists_acct w to) && (v =? 0)) = false ->                    (* not the "no such account" shortcut *)
+  code <> [] -> zlen code < W64 -> 0 <= gas ->
+  r_out (call_top fuel E static to v input gas w) <> O_fuel ->
+  exists rr, ref_run E cx0 s0 rr /\ call_matches w (call_top fuel E static to v input gas w) rr /\
+             (forall pc i, rr = RR_outside pc i -> leaves_fragment E cx0).
+Proof.
+  cbv zeta. intros Hbal Hpre Hex Hcode Hlen Hgas Hnf.
+  unfold call_top, do_call in *. change (1024 <? 0) with false in *. cbv iota in *.
+  rewrite Hbal, Hpre in *. cbn [andb] in *. rewrite Hex in *.
+  set (w1 := transfer w (e_origin E) to v) in *.
+  destruct (code_of w1 to) as [|b0 code'] eqn:Ecode; [congruence|].
+  change (0 + 1) with 1 in *.
+  set (cx0 := mkCtx to (e_origin E) v (b0 :: code') (zlen (b0 :: code')) input static 1) in *.
+  set (s0 := mkSt 0 [] [] 0 gas [] w1 0) in *.
+  assert (Hc : cwf cx0) by (split; [reflexivity|exact Hlen]).
+  assert (Hnf0 : r_out (run fuel E cx0 s0) <> O_fuel).
+  { intros Hf. rewrite Hf in Hnf. apply Hnf. reflexivity. }
+  destruct (run_refines_reference fuel E cx0 s0 Hc (initial_rinv gas w1 0 Hgas) Hnf0) as (rr & Hrun & Hm & Hout).
+  exists rr. split; [exact Hrun|]. split; [|exact Hout].
+  destruct rr as [|pc i|o d g w']; cbn [res_matches call_matches] in *.
+  - destruct Hm as (e & He). rewrite He. cbn. repeat split; try reflexivity. eexists; reflexivity.
+  - exact I.
+  - destruct Hm as (Ho & Hd & Hg & Hw). destruct o; try exact I.
+    + rewrite Ho. repeat split; assumption.
+    + rewrite Ho. cbn. repeat split; try assumption; reflexivity.
+Qed.
